@@ -454,7 +454,7 @@ func TestHarness(t *testing.T) {
 		go func() {
 			for {
 				time.Sleep(time.Second)
-				if time.Duration(time.Now().UnixNano()-caseSince.Load()) > 5*time.Minute {
+				if time.Duration(time.Now().UnixNano()-caseSince.Load()) > 150*time.Second {
 					fmt.Printf("harness: case %d (%s) does not end: the fake clock is stalled\n", caseNo.Load(), cases[caseNo.Load()].name)
 					os.Exit(4)
 				}
@@ -480,7 +480,7 @@ func TestHarness(t *testing.T) {
 	if err != nil {
 		t.Fatal(err)
 	}
-	next, round := 0, 0
+	next, round, stuck := 0, 0, 0
 	for next < len(cases) {
 		dir := filepath.Join(*fOut, fmt.Sprintf("child-%d", round))
 		round++
@@ -506,6 +506,17 @@ func TestHarness(t *testing.T) {
 		case 3:
 			o.Count("child-restarts")
 			next = cur + 1 // the case that could not be torn down has been reported; go on behind it
+		case 4:
+			// the case never came to rest: goroutines of the service spin (a retry loop without a wait) or are parked for
+			// good on a mutex — Stop cannot return, nothing else makes progress.  A concrete failing schedule: report it.
+			name := cases[min(cur, len(cases)-1)].name
+			o.Monitor(*fProp, "service-stuck", fmt.Sprintf("case %d (%s) made no progress for 150 s of real time: the service's goroutines spin or are blocked for good (the fake clock cannot advance)", cur, name),
+				[]string{fmt.Sprintf("servicetrace -prop %s -seed %d -tier %s -shard %d -nshard %d -only %d", *fProp, *fSeed, *fTier, *fShard, *fNShard, cur), "# " + name})
+			stuck++
+			next = cur + 1
+			if stuck >= 2 {
+				next = len(cases) // every further case would cost the same wait
+			}
 		default:
 			// the code under test crashed the process
 			fmt.Printf("%s\n", log)
